@@ -583,9 +583,14 @@ func (d *urlValuesDecoder) parseValue(v string, schema *openapi3.SchemaRef) (any
 		var value any
 		var err error
 		for _, sr := range schema.Value.AllOf {
-			value, err = d.parseValue(v, sr)
-			if value == nil || err != nil {
-				break
+			item, e := d.parseValue(v, sr)
+			if e != nil {
+				return nil, e
+			}
+			// a member that does not say how the text is to be read (no type: only constraints)
+			// leaves the value decoded by the other members as it is
+			if item != nil {
+				value = item
 			}
 		}
 		return value, err
